@@ -213,6 +213,36 @@ func c06Tasks(tier string) []mc.Task {
 		}
 	}})
 
+	// (i'') every length 7..80 and around 128, 256, 1024, 4096 (code that handles several bytes per step and a
+	// tail, or switches path above a size): rows cycling through the 35 symbols of the alphabet from three
+	// starting points, alone and as a 2-row alignment (second row shifted by 11 symbols)
+	ts = append(ts, mc.Task{Name: "length-sweep", Run: func(c *mc.Ctx) {
+		var lens []int
+		for l := 7; l <= 80; l++ {
+			lens = append(lens, l)
+		}
+		for _, b := range []int{128, 256, 1024, 4096} {
+			for d := -1; d <= 2; d++ {
+				lens = append(lens, b+d)
+			}
+		}
+		const sym = "ACGTRYSWKMBDHVNacgtryswkmbdhvn-.*" // no U: the strand operations refuse nothing here
+		for _, l := range lens {
+			for _, off := range []int{0, 5, 17} {
+				r1, r2 := make([]byte, l), make([]byte, l)
+				for j := range r1 {
+					r1[j] = sym[(j+off)%len(sym)]
+					r2[j] = sym[(j*3+off+11)%len(sym)]
+				}
+				c06Check(c, c06Case{Kind: "row", Seqs: []string{string(r1)}})
+				c06Check(c, c06Case{Kind: "aln", Seqs: []string{string(r1), string(r2)}})
+			}
+			if c.Expired() {
+				return
+			}
+		}
+	}})
+
 	// (ii) one row over the full alphabet, then longer rows over the 8-symbol alphabet
 	row := func(c *mc.Ctx, s []byte) { c06Check(c, c06Case{Kind: "row", Seqs: []string{string(s)}}) }
 	for l := 0; l <= 4; l++ {
@@ -791,7 +821,7 @@ func init() {
 	mc.Register(&mc.Prop{
 		ID:    "C06",
 		Level: "exploration",
-		Rule: cliStreamRule[1:] + " " + "(on every case also: two operations on one object - ToUpper/ToLower then ReverseComplement / ReverseComplementSequences(one row) / Unalign, and the strand operation first - against the composed model; the alignment Unalign was called on is unchanged, a second Unalign gives the same rows, and case folding / reverse-complementing the un-aligned set or the alignment afterwards does not show in the other object; every observed row is the same by index, by name and by iteration;) (sequence sets of 1-2 rows, total length <= 4, over {A,c,-,0xE9,0xC3,0xA9} with at least one byte >= 0x80: ToUpper/ToLower/Unalign keep row lengths, fold the 7-bit bytes exactly and are idempotent;) bounded-exhaustive enumeration; on every case: ReverseComplement and ReverseComplementSequences for every subset of {row names} + {one unknown name}, each applied twice (involution), " +
+		Rule: cliStreamRule[1:] + " " + "(on every case also: two operations on one object - ToUpper/ToLower then ReverseComplement / ReverseComplementSequences(one row) / Unalign, and the strand operation first - against the composed model; the alignment Unalign was called on is unchanged, a second Unalign gives the same rows, and case folding / reverse-complementing the un-aligned set or the alignment afterwards does not show in the other object; every observed row is the same by index, by name and by iteration;) (sequence sets of 1-2 rows, total length <= 4, over {A,c,-,0xE9,0xC3,0xA9} with at least one byte >= 0x80: ToUpper/ToLower/Unalign keep row lengths, fold the 7-bit bytes exactly and are idempotent;) (also: rows of every length 7..80 and within -1..+2 of 128, 256, 1024, 4096 cycling through the alphabet, alone and as 2-row alignments;) bounded-exhaustive enumeration; on every case: ReverseComplement and ReverseComplementSequences for every subset of {row names} + {one unknown name}, each applied twice (involution), " +
 			"ToUpper and ToLower each applied twice (idempotence) and once more after the first row, as given and with its case inverted, was added under two new names (rows added after a conversion are converted by the next one), Unalign; results compared row by row (names, order, residues, Length()) with the IUPAC complement derived from base sets. Cases: " +
 			"(i) all 256 byte values as a 1x1 alignment with the alphabet forced to nucleotide, also through align.Complement/Reverse and Sequence.Complement/Reverse; " +
 			"(ii) every single row of length 0..4 over the 35 symbols ACGTRYSWKMBDHVN acgtryswkmbdhvn - . * U u and of length 5..6 (quick) / 5..7 (thorough) over {A,c,K,m,B,-,.,*}, also through the Sequence-level functions; " +
